@@ -90,6 +90,8 @@ MUTS = {
         ('M13 missing written as all ones minus one', ENC,
          "        else:\n            value = NUMERIC_MISSING_VALUES[nbits]\n        bit_writer.write_uint(value, nbits)\n\n    def process_numeric_compressed",
          "        else:\n            value = NUMERIC_MISSING_VALUES[nbits] - 1\n        bit_writer.write_uint(value, nbits)\n\n    def process_numeric_compressed"),
+        ('M15 fix 0604054 reverted: all-ones entries kept as values in compressed columns', ENC,
+         "        if nbits <= 1:\n            return values\n", "        if nbits <= 64:\n            return values\n"),
         ('M14 compressed minimum field masked to its width', ENC,
          "        bit_writer.write_uint(min_value, nbits_min_value)\n        bit_writer.write_uint(nbits_diff, NBITS_FOR_NBITS_DIFF)\n\n        if nbits_diff:\n            for value in values:\n                bit_writer.write_uint(value, nbits_diff)\n\n    def process_string(",
          "        bit_writer.write_uint(min_value & (2 ** nbits_min_value - 1), nbits_min_value)\n        bit_writer.write_uint(nbits_diff, NBITS_FOR_NBITS_DIFF)\n\n        if nbits_diff:\n            for value in values:\n                bit_writer.write_uint(value, nbits_diff)\n\n    def process_string("),
